@@ -132,6 +132,10 @@ func (s *Slice[T]) splice(start, deleteCount int, insert ...T) ([]T, error) {
 	if start < 0 || start > len(s.elements) {
 		return nil, ErrIndexOutOfBounds
 	}
+	if deleteCount < 0 {
+		return nil, ErrInvalidSliceRange
+	}
+
 	deleteCount = min(deleteCount, len(s.elements)-start)
 	removed := make([]T, deleteCount)
 	copy(removed, s.elements[start:start+deleteCount])
